@@ -17,7 +17,7 @@ META = {
                    "R15.perfile (the per-file call receives only this file's content, the index and the pattern). A function of its arguments only, with no shared "
                    "state, gives the same result under any co-selection, repetition or thread interleaving.",
     "assumptions": ["solang_parser::parse and regex are pure functions of their arguments (dependency code is not analysed)"],
-    "floors": {"R15.effects": 3, "R15.fileno": 3, "R15.perfile": 3, "R15.order": 10},
+    "floors": {"R15.effects": 3, "R15.fileno": 3, "R15.perfile": 3, "R15.order": 10, "R15.siblings": 3},
 }
 
 EFFECT_PREFIXES = ("std::fs::", "std::env::", "std::time::", "std::process::", "std::net::", "std::thread::", "std::io::", "rand::", "std::sync::",
@@ -136,6 +136,23 @@ def run(ctx, crate):
             and a.args[1][0] == "idx"
         obs.append(Ob("R15.perfile", w.path, "the per-file call sees only this file's content, the index and the pattern", ok, site=a.where,
                       found=[show(x)[:70] for x in a.args]))
+    # R15.siblings: whether a file is analysed does not depend on the other entries of its directory
+    for w in dirwalk.walks(crate):
+        if not w.ok or len(w.analyze) != 1 or not w.reads:
+            continue
+        b = w.body
+        early = []
+        for lp in O.loops_of_body(b):
+            normal, extra = lp.exits()
+            early += [b.blocks[x]["tloc"]["line"] for (x, t) in extra]
+        a = w.analyze[0]
+        p = w.reads[0].args[0]
+        g = S.block_guard(b, a.bb, {p: "p"}) or []
+        foreign = sorted(set(at for c in g for at in c if "p" not in at.replace("Path", "").replace("param", "") and "arg2[*]" not in at and "(p)" not in at and "p)" not in at))
+        obs.append(Ob("R15.siblings", w.path, "a file's analysis does not depend on the other entries of its directory", not early and not foreign,
+                      expected="no early exit from the listing loop; the decision to analyse mentions only the entry itself",
+                      found=("early exit at line(s) %s" % sorted(set(early))) if early else (foreign or "entry-local"),
+                      example="a *.t.sol file listed before a contract"))
     return obs
 
 
